@@ -182,7 +182,8 @@ type c18Exec struct {
 	snap      *slog.VerifRegistry
 	origCwd   string
 	home      string
-	resetDiff string // set by apply: what slog.Reset() did to the mapping tables (should be nothing)
+	resetDiff string   // set by apply: what slog.Reset() did to the mapping tables (should be nothing)
+	warm      []string // paths asked for between the table operations (history)
 }
 
 func c18Call(f func() string) (out string, panicked any) {
@@ -236,7 +237,18 @@ func (x *c18Exec) apply(sc c18Scenario) (init map[string]string, table map[strin
 		table[k] = v
 	}
 	rxs = slog.VerifKnownPathRegexps()
+	// history: the paths of this scenario are asked for BEFORE every change of the tables as well (a program logs
+	// while it is being configured); what is reported at the end depends on the tables and flags at the end only
+	ask := func() {
+		for _, p := range x.warm {
+			func() {
+				defer func() { _ = recover() }()
+				_ = slog.Safety(p)
+			}()
+		}
+	}
 	for _, o := range sc.Ops {
+		ask()
 		switch o.Kind {
 		case "add":
 			slog.AddKnownPathMapping(o.K, o.V)
@@ -293,6 +305,10 @@ func c18CanonTable(m map[string]string) string {
 
 // one scenario: state set-up, table oracle, caller-field check, then every path
 func (x *c18Exec) run(r *Run, sc c18Scenario, paths []string, reps int, kind string) {
+	x.warm = paths
+	if len(x.warm) > 8 {
+		x.warm = x.warm[:8]
+	}
 	init, table, rxs := x.apply(sc)
 	rep0 := c18Replay{Sc: sc, Table: table, Regexps: rxs}
 	if x.resetDiff != "" {
@@ -549,7 +565,7 @@ func c18GenScenario(r *Run, x *c18Exec, thorough bool) c18Scenario {
 		case c < 88:
 			sc.Ops = append(sc.Ops, c18Op{Kind: "rxreset"})
 		case c < 92:
-			sc.Ops = append(sc.Ops, c18Op{Kind: "rxremove", K: c18Builtin})
+			sc.Ops = append(sc.Ops, c18Op{Kind: "rxremove", K: []string{c18Builtin, c18Builtin, `^/srv/[a-z]+/`, `/(src|pkg|x)/`, `/node_modules/`}[g.Intn(5)]})
 		case c < 94:
 			sc.Ops = append(sc.Ops, c18Op{Kind: "rxadd", K: c18Builtin, V: "~"})
 		case c < 96:
@@ -681,6 +697,13 @@ func runC18(r *Run) {
 		Ops: []c18Op{{Kind: "add", K: "github.com/acme/app", V: "ACME"}, {Kind: "add", K: "vendor/x", V: "VX"}, {Kind: "rxadd", K: `/node_modules/`, V: "/nm/"}}},
 		[]string{"github.com/acme/app/internal/db/a.go", "github.com/acme/apple/x.go", "github.com/acme/app", "vendor/x/y/z.go", "vendor/xy/z.go",
 			"a/node_modules/b.js", "github.com/acme/app/node_modules/b.js", "other/rel.go"}})
+	// a regexp rule that is withdrawn again (the paths are asked for while it is in force, see apply)
+	corpus = append(corpus, struct {
+		sc    c18Scenario
+		paths []string
+	}{c18Scenario{Priv: true, Rx: true, FlagAPI: "set", Cwd: c18Root + "/w",
+		Ops: []c18Op{{Kind: "rxadd", K: `/node_modules/`, V: "/nm/"}, {Kind: "rxadd", K: `/pkg/mod/[^/]+/`, V: "/mod/"}, {Kind: "add", K: "/opt/x", V: "X"}, {Kind: "remove", K: "/opt/x"}, {Kind: "rxremove", K: `/node_modules/`}}},
+		[]string{home + "/p/node_modules/q/i.js", "/srv/node_modules/f.js", "/srv/pkg/mod/m/f.go", "/opt/x/f.go", "/opt/x/node_modules/f.js"}})
 	// directory names with a dollar sign are names, not variables
 	corpus = append(corpus, struct {
 		sc    c18Scenario
